@@ -358,6 +358,9 @@ def explore(pid, tier, seed, ex):
             for p in ("relchk", "devwrap"):
                 ex.compare(sample_third(lines), p, domain, label + "/" + p)
 
+    if pid not in ("C03", "C17", "C18", "C19"):
+        # sizes / counts / relations / spellings a random generator is unlikely to produce; attributed by outermost operator
+        both(streams.s_scale(g, tier), None if pid in ("C01", "C04") else {pid}, "scale-and-relations")
     if pid == "C01":
         rnd = g.random_cases(6000 if tier == "quick" else 150000, depth=6)
         both(rnd, None, "random")
